@@ -418,6 +418,9 @@ func init() {
 		ex.inconclusive("FormatFloat on symbolic with non-'f' format")
 		return nil
 	})
+	reg("strconv.FormatBool", func(ex *Exec, fr *frame, a []Value) Value {
+		return simplify(TIte(boolTerm(a[0]), TStr("true"), TStr("false")))
+	})
 	reg("strconv.Atoi", func(ex *Exec, fr *frame, a []Value) Value {
 		s, ok := a[0].(string)
 		if !ok {
